@@ -26,6 +26,14 @@ def handleC04 (kind : String) (fs : List (String × String)) : String :=
   match kind with
   | "leak" => leak fs
   | "stuck" => stuck fs
+  | "udp" =>
+      let missing := (getNat fs "missing").getD 0
+      let wrong := (getNat fs "wrong").getD 0
+      let extra := (getNat fs "extra").getD 0
+      -- (the harness repeats a run whose only symptom is missing members: a lost datagram does not repeat)
+      let ok := missing == 0 && wrong == 0 && extra == 0
+      verdict ok (if ok then none else some s!"burst-over-the-udp-transport-not-applied-as-sent:missing={missing},rewritten={wrong},unknown={extra}:of-{getD fs "sent" "?"}")
+        true s!"udp-attempt{getD fs "attempt" "1"}" ""
   | "sim" => if (get fs "err").isSome then "PARSE create" else
       let bad := getD fs "bad" "-"
       let conv := getD fs "converged" "0" == "1"
